@@ -131,7 +131,7 @@ def _rand(rng, steps, nkeys, walks=True):
 
 def randoms(tier, rng):
     out = []
-    plan = [(2, 6000, 40), (1, 8000, 2000)] if tier == "quick" else [(1, 1500, 30), (1, 2000, 500)] if tier == "cross" else [(6, 8000, 40), (3, 20000, 2000), (2, 30000, 10000)]
+    plan = [(2, 6000, 40), (1, 8000, 2000)] if tier == "quick" else [(1, 1500, 30), (1, 2000, 120)] if tier == "cross" else [(6, 8000, 40), (3, 20000, 2000), (2, 30000, 10000)]
     for n, (nseg, steps, nkeys) in enumerate(plan):
         out.append(dict(tag="k%d" % nkeys, segs=[_rand(rng, steps, nkeys) for _ in range(nseg)], trace_consts=TRACE_CONSTS,
                         replays=_replays([rng.randint(0, 3), (n + 1) % 4] if tier == "thorough" else [(n * 2 + rng.randint(0, 1)) % 4])))
